@@ -111,19 +111,27 @@ func init() {
 			}
 		}
 		readMeta := func(dir string) (string, string) {
-			db, err := sql.Open("sqlite", dir+"/siot.sqlite?mode=ro")
-			if err != nil {
-				return "", ""
-			}
-			defer db.Close()
-			var root string
+			// a second connection to the file the instance has open: wait out its write transactions,
+			// and retry rather than mistake a failed read for an empty root or key
+			var root, down string
 			var key []byte
-			db.QueryRow("SELECT root_id, jwt_key FROM meta").Scan(&root, &key)
-			// the instance has exactly one root: one edge below the sentinel, and it is the recorded one
 			var roots int
-			var down string
-			db.QueryRow("SELECT count(*) FROM edges WHERE up='root'").Scan(&roots)
-			db.QueryRow("SELECT down FROM edges WHERE up='root'").Scan(&down)
+			for attempt := 0; attempt < 30; attempt++ {
+				db, err := sql.Open("sqlite", dir+"/siot.sqlite?_pragma=busy_timeout(5000)&mode=ro")
+				if err != nil {
+					time.Sleep(100 * time.Millisecond)
+					continue
+				}
+				e1 := db.QueryRow("SELECT root_id, jwt_key FROM meta").Scan(&root, &key)
+				// the instance has exactly one root: one edge below the sentinel, and it is the recorded one
+				e2 := db.QueryRow("SELECT count(*) FROM edges WHERE up='root'").Scan(&roots)
+				e3 := db.QueryRow("SELECT down FROM edges WHERE up='root'").Scan(&down)
+				db.Close()
+				if e1 == nil && e2 == nil && (e3 == nil || roots == 0) {
+					break
+				}
+				time.Sleep(100 * time.Millisecond)
+			}
 			if roots != 1 || down != root {
 				return fmt.Sprintf("INCONSISTENT(%d root edges, meta %q, edge %q)", roots, root, down), fmt.Sprintf("%x", key)
 			}
@@ -333,7 +341,26 @@ func init() {
 			c2, err := start(dir, "", genID)
 			rec := map[string]any{"ev": "Recovered", "opens": err == nil, "rootSame": false, "keySame": false, "hashOK": false, "present": present}
 			if err == nil {
-				nc2, err := nats.Connect(c2.nats, nats.Timeout(5*time.Second), nats.MaxReconnects(0))
+				var nc2 *nats.Conn
+				for attempt := 0; attempt < 4; attempt++ {
+					if nc2, err = nats.Connect(c2.nats, nats.Timeout(5*time.Second), nats.MaxReconnects(0)); err == nil {
+						break
+					}
+					time.Sleep(500 * time.Millisecond)
+				}
+				if err != nil {
+					select {
+					case <-c2.done:
+						// the re-opened instance died after it had reported ready: behaviour of the code
+						rec["error"] = "instance exited after start: " + c2.stderr.String()[max(0, c2.stderr.Len()-600):]
+					default:
+						// it runs but the driver cannot reach it: no verdict from this experiment
+						c2.cmd.Process.Signal(syscall.SIGKILL)
+						<-c2.done
+						res.fail(Failure{Finding: "infra", What: "driver could not connect to the re-opened instance: " + err.Error()})
+						return
+					}
+				}
 				if err == nil {
 					rootAfter, keyAfter := readMeta(dir)
 					if initCrash {
